@@ -169,8 +169,8 @@ def grid_shard(shard, points):
 # ---------------------------------------------------------------------------
 # generated
 
-TEXT_TARGETS = ["FN", "EMAIL", "TEL", "NOTE", "NICKNAME", "UID", "X-CUSTOM"]
-PRESENCE_TARGETS = TEXT_TARGETS + ["N", "ADR", "ORG", "CATEGORIES", "PHOTO", "BDAY"]
+TEXT_TARGETS = ["FN", "EMAIL", "TEL", "NOTE", "NICKNAME", "UID", "X-CUSTOM", "ORG", "CATEGORIES"]
+PRESENCE_TARGETS = TEXT_TARGETS + ["N", "ADR", "PHOTO", "BDAY"]
 
 
 def _mixed(draw, name):
@@ -191,9 +191,11 @@ def _vals(cards, pname):
 
 @st.composite
 def card_tm(draw, cands):
-    mode = draw(st.sampled_from(["equal", "prefix", "suffix", "infix", "case", "absent", "word-edge", "padded"]))
+    mode = draw(st.sampled_from(["equal", "prefix", "suffix", "infix", "case", "absent", "word-edge", "padded", "empty"]))
     cands = [c for c in cands if c and "\n" not in c]
-    if not cands or mode == "absent":
+    if mode == "empty":
+        text = ""
+    elif not cands or mode == "absent":
         text = draw(st.sampled_from(["zzz", "example", "John", "@"]))
     else:
         v = draw(st.sampled_from(cands))
